@@ -483,31 +483,22 @@ Lemma merged_nodup ra sn attrs schema : NoDup (keys attrs) ->
   NoDup (keys (r_attrs (merge (merge default_resource (detect ra sn)) (mk_res attrs schema)))).
 Proof. intros H. apply merge_spec_proof. exact H. Qed.
 
-Definition fallback_name (exe : option value) : option value :=
+Definition fallback_name (exe : option value) : value :=
   match exe with
-  | None => Some (VStr (bs "unknown_service"))
-  | Some (VStr e) => Some (VStr (bs "unknown_service" ++ bs ":" ++ e))
-  | Some _ => None
+  | Some (VStr e) => VStr (bs "unknown_service" ++ bs ":" ++ e)
+  | _ => VStr (bs "unknown_service")
   end.
 
-(* Create, completely: it throws exactly when no service.name is configured and the executable name
-   is not a string; otherwise every key is decided by caller > environment > SDK default, and
-   service.name falls back to unknown_service[:<executable name>] *)
+(* Create, completely: every key is decided by caller > environment > SDK default, and service.name falls
+   back to unknown_service[:<executable name, when it is a string>] *)
 Theorem create_characterised : forall (ra sn : envv) (attrs : amap) (schema : bytes),
-  match create ra sn attrs schema with
-  | None => layered ra sn attrs key_service_name = None /\
-            (exists z, layered ra sn attrs key_exe_name = Some (VInt z)) \/
-            layered ra sn attrs key_service_name = None /\
-            (exists b, layered ra sn attrs key_exe_name = Some (VBool b))
-  | Some r =>
-      r_schema r = schema /\
-      (forall k, lookup k (r_attrs r) =
-                 match layered ra sn attrs k with
-                 | Some v => Some v
-                 | None => if bytes_eqb k key_service_name then fallback_name (layered ra sn attrs key_exe_name) else None
-                 end) /\
-      (layered ra sn attrs key_service_name = None -> fallback_name (layered ra sn attrs key_exe_name) <> None)
-  end.
+  let r := create ra sn attrs schema in
+  r_schema r = schema /\
+  (forall k, lookup k (r_attrs r) =
+             match layered ra sn attrs k with
+             | Some v => Some v
+             | None => if bytes_eqb k key_service_name then Some (fallback_name (layered ra sn attrs key_exe_name)) else None
+             end).
 Proof.
   intros ra sn attrs schema. unfold create.
   destruct detector_consts as (_ & _ & _ & Es & Ee). rewrite Es, Ee.
@@ -516,29 +507,19 @@ Proof.
   assert (Hm : forall k, lookup k (r_attrs m) = layered ra sn attrs k) by (intros; apply merged_lookup).
   assert (Hs : r_schema m = schema) by apply merged_schema.
   destruct (layered ra sn attrs key_service_name) as [sv|] eqn:Ls.
-  - repeat split; auto.
-    + intros k. rewrite Hm. destruct (layered ra sn attrs k) eqn:Lk; [reflexivity|].
-      destruct (bytes_eqb k key_service_name) eqn:E; [|reflexivity]. apply bytes_eqb_eq in E. congruence.
-    + discriminate.
-  - destruct (layered ra sn attrs key_exe_name) as [[e|z|b]|] eqn:Le.
-    + repeat split; auto.
-      * intros k. cbn [r_attrs]. rewrite lookup_map_set, Hm.
-        destruct (bytes_eqb k key_service_name) eqn:E.
-        -- apply bytes_eqb_eq in E. subst k. rewrite Ls. reflexivity.
-        -- destruct (layered ra sn attrs k); reflexivity.
-      * discriminate.
-    + left. split; eauto.
-    + right. split; eauto.
-    + repeat split; auto.
-      * intros k. cbn [r_attrs]. rewrite lookup_map_set, Hm.
-        destruct (bytes_eqb k key_service_name) eqn:E.
-        -- apply bytes_eqb_eq in E. subst k. rewrite Ls. reflexivity.
-        -- destruct (layered ra sn attrs k); reflexivity.
-      * discriminate.
+  - cbv zeta. split; auto.
+    intros k. rewrite Hm. destruct (layered ra sn attrs k) eqn:Lk; [reflexivity|].
+    destruct (bytes_eqb k key_service_name) eqn:E; [|reflexivity]. apply bytes_eqb_eq in E. congruence.
+  - cbv zeta. cbn [r_schema r_attrs]. split; auto.
+    intros k. rewrite lookup_map_set, Hm.
+    destruct (bytes_eqb k key_service_name) eqn:E.
+    + apply bytes_eqb_eq in E. subst k. rewrite Ls. unfold fallback_name.
+      destruct (layered ra sn attrs key_exe_name) as [[e|z|b]|]; reflexivity.
+    + destruct (layered ra sn attrs k); reflexivity.
 Qed.
 
-Theorem create_precedence_proof : forall ra sn attrs schema r,
-  create ra sn attrs schema = Some r ->
+Theorem create_precedence_proof : forall ra sn attrs schema,
+  let r := create ra sn attrs schema in
   r_schema r = schema /\
   forall k,
     (forall v, lookup k attrs = Some v -> lookup k (r_attrs r) = Some v) /\
@@ -548,8 +529,8 @@ Theorem create_precedence_proof : forall ra sn attrs schema r,
     (lookup k attrs = None -> env_says ra sn k = None -> lookup k doc_defaults = None -> k <> key_service_name ->
      lookup k (r_attrs r) = None).
 Proof.
-  intros ra sn attrs schema r H. pose proof (create_characterised ra sn attrs schema) as C. rewrite H in C.
-  destruct C as (C1 & C2 & _). split; auto. intros k. specialize (C2 k). unfold layered in C2.
+  intros ra sn attrs schema r. destruct (create_characterised ra sn attrs schema) as (C1 & C2). fold r in C1, C2.
+  split; auto. intros k. specialize (C2 k). unfold layered in C2.
   repeat split.
   - intros v E. now rewrite E in C2.
   - intros v E1 E2. now rewrite E1, E2 in C2.
@@ -557,33 +538,32 @@ Proof.
   - intros E1 E2 E3 Hk. rewrite E1, E2, E3 in C2. apply bytes_eqb_neq in Hk. now rewrite Hk in C2.
 Qed.
 
-(* the sentence as stated is refuted by a non-string process.executable.name (finding F25) ... *)
-Theorem service_name_always_present_refuted_proof :
-  exists ra sn attrs schema, create ra sn attrs schema = None.
-Proof. exists None, None, [(key_exe_name, VInt 7)], []. reflexivity. Qed.
-
-(* ... and holds whenever Create returns at all; it returns unless the executable name is an int / a bool
-   while no service.name is configured *)
-Theorem service_name_always_present_partial_proof : forall ra sn attrs schema,
-  (forall r, create ra sn attrs schema = Some r -> exists v, lookup key_service_name (r_attrs r) = Some v) /\
-  ((layered ra sn attrs key_service_name <> None \/
-    layered ra sn attrs key_exe_name = None \/ exists e, layered ra sn attrs key_exe_name = Some (VStr e)) ->
-   exists r, create ra sn attrs schema = Some r).
+(* Create always yields a resource with a service.name: the configured one, else
+   unknown_service[:<executable name>] *)
+Theorem service_name_always_present_proof : forall ra sn attrs schema,
+  exists v, lookup key_service_name (r_attrs (create ra sn attrs schema)) = Some v /\
+            (layered ra sn attrs key_service_name = None -> v = fallback_name (layered ra sn attrs key_exe_name)) /\
+            (forall w, layered ra sn attrs key_service_name = Some w -> v = w).
 Proof.
-  intros ra sn attrs schema. pose proof (create_characterised ra sn attrs schema) as C. split.
-  - intros r H. rewrite H in C. destruct C as (_ & C2 & C3). specialize (C2 key_service_name).
-    rewrite bytes_eqb_refl in C2. destruct (layered ra sn attrs key_service_name) eqn:L; [eauto|].
-    destruct (fallback_name (layered ra sn attrs key_exe_name)) eqn:F; [eauto|]. exfalso. now apply C3.
-  - intros H. destruct (create ra sn attrs schema) as [r|]; [eauto|]. exfalso.
-    destruct C as [[C1 [z C2]]|[C1 [b C2]]]; destruct H as [H|[H|[e H]]]; congruence.
+  intros ra sn attrs schema. destruct (create_characterised ra sn attrs schema) as (_ & C2).
+  specialize (C2 key_service_name). rewrite bytes_eqb_refl in C2.
+  destruct (layered ra sn attrs key_service_name) as [w|] eqn:L.
+  - exists w. repeat split; auto; congruence.
+  - eexists. repeat split; eauto. discriminate.
 Qed.
 
+(* regression for finding F25 (fixed in eff8d52): a non-string executable name no longer makes Create fail *)
+Example f25_regression :
+  lookup key_service_name (r_attrs (create None None [(key_exe_name, VInt 7)] [])) = Some (VStr (bs "unknown_service")) /\
+  lookup key_exe_name (r_attrs (create None None [(key_exe_name, VInt 7)] [])) = Some (VInt 7).
+Proof. split; reflexivity. Qed.
+
 Example create_nonvacuous :
-  exists r, create (Some (bs "a=1,process.executable.name=prog")) None [(bs "a", VInt 2)] (bs "u") = Some r /\
-            lookup (bs "a") (r_attrs r) = Some (VInt 2) /\
-            lookup key_service_name (r_attrs r) = Some (VStr (bs "unknown_service:prog")) /\
-            lookup (bs "telemetry.sdk.language") (r_attrs r) = Some (VStr (bs "cpp")) /\ r_schema r = bs "u".
-Proof. eexists. repeat split; reflexivity. Qed.
+  let r := create (Some (bs "a=1,process.executable.name=prog")) None [(bs "a", VInt 2)] (bs "u") in
+  lookup (bs "a") (r_attrs r) = Some (VInt 2) /\
+  lookup key_service_name (r_attrs r) = Some (VStr (bs "unknown_service:prog")) /\
+  lookup (bs "telemetry.sdk.language") (r_attrs r) = Some (VStr (bs "cpp")) /\ r_schema r = bs "u".
+Proof. repeat split; reflexivity. Qed.
 
 (* ================================================================ providers *)
 Theorem provider_resource_referenced_proof : forall (rs : list resource) (ops : list (signal * nat)),
